@@ -106,6 +106,14 @@ func (d *osmDoc) xml() []byte {
 			lat, lon := 5.0+float64(o.id%7)*0.01, 5.0
 			if d.inb[o.key()] {
 				lat, lon = 0.25+float64(o.id%5)*0.1, 0.5
+				switch o.id % 4 { // a node on the boundary of the box is in the box: on its east edge, on its north edge, at its south-west corner
+				case 1:
+					lon = 1
+				case 2:
+					lat = 1
+				case 3:
+					lat, lon = 0, 0
+				}
 			}
 			fmt.Fprintf(&b, " <node id=\"%d\" lat=\"%g\" lon=\"%g\" version=\"1\">%s</node>\n", o.id, lat, lon, tag(o))
 		case 'w':
